@@ -503,3 +503,80 @@ MUTANTS += [
             let torrent_map_shard = self.get_shard(&request.info_hash).upgradable_read();
 """)]),
 ]
+
+HST = HS + "storage.rs"
+MUTANTS += [
+ dict(id="C01-remove-peer-forgets-counter", props=["C01"], expect={"C01": r"counter#udp#remove_peer"},
+      edits=[(SWR, """        if let Some(Peer {
+            is_seeder: true, ..
+        }) = opt_removed_peer
+        {
+            self.num_seeders -= 1;
+        }
+
+        opt_removed_peer
+    }
+
+    /// Extract response peers
+    ///
+    /// If there are more peers in map than `max_num_peers_to_take`, do a
+    /// random""", """        opt_removed_peer
+    }
+
+    /// Extract response peers
+    ///
+    /// If there are more peers in map than `max_num_peers_to_take`, do a
+    /// random""")]),
+ dict(id="C01-insert-before-extract", props=["C01"], expect={"C01": r"announce#udp#(remove_before_reply_before_insert|insert_by_status)"},
+      edits=[(SWR, """            Self::Large(peer_map) => {
+                let opt_removed_peer = peer_map.remove_peer(&peer_map_key);
+
+                let (seeders, leechers) = peer_map.num_seeders_leechers();
+""", """            Self::Large(peer_map) => {
+                let opt_removed_peer = peer_map.remove_peer(&peer_map_key);
+
+                if status != PeerStatus::Stopped {
+                    peer_map.insert(peer_map_key, Peer { peer_id: request.peer_id, is_seeder: status == PeerStatus::Seeding, valid_until });
+                }
+                let (seeders, leechers) = peer_map.num_seeders_leechers();
+""")]),
+ dict(id="C01-left-le-zero-is-seeder", props=["C01"], expect={"C01": r"status#udp#table"},
+      edits=[(SWR, "        } else if bytes_left.0.get() == 0 {", "        } else if bytes_left.0.get() <= 0 {")]),
+ dict(id="C01-seeders-leechers-swapped-in-reply", props=["C01"], expect={"C01": r"announce#udp#reply_origin"},
+      edits=[(SWR, """            Self::Small(peer_map) => {
+                let opt_removed_peer = peer_map.remove(&peer_map_key);
+
+                let (seeders, leechers) = peer_map.num_seeders_leechers();""", """            Self::Small(peer_map) => {
+                let opt_removed_peer = peer_map.remove(&peer_map_key);
+
+                let (leechers, seeders) = peer_map.num_seeders_leechers();""")]),
+ dict(id="C01-try-shrink-lt-3", props=["C01"], expect={"C01": r"switch#udp#try_shrink"},
+      edits=[(SWR, "        (self.peers.len() <= SMALL_PEER_MAP_CAPACITY).then(|| {\n            SmallPeerMap(ArrayVec::from_iter(\n                self.peers.iter().map(|(k, v)| (*k, *v)),\n            ))\n        })\n    }\n}\n\n#[derive(Clone, Copy, Debug)]\nstruct Peer {\n    peer_id",
+              "        (self.peers.len() < 2).then(|| {\n            SmallPeerMap(ArrayVec::from_iter(\n                self.peers.iter().map(|(k, v)| (*k, *v)),\n            ))\n        })\n    }\n}\n\n#[derive(Clone, Copy, Debug)]\nstruct Peer {\n    peer_id")]),
+ dict(id="C01-key-uses-peer-id-port-zero", props=["C01"], expect={"C01": r"announce#udp#key"},
+      edits=[(SWR, "        let peer_map_key = ResponsePeer {\n            ip_address,\n            port: request.port,\n        };\n\n        // Create the response before inserting the peer. This means that we\n        // don't have to filter it out from the response peers, and that the\n        // reported number of seeders/leechers will not include it\n        let (response, opt_removed_peer)",
+              "        let peer_map_key = ResponsePeer {\n            ip_address,\n            port: if request.key.0.get() == 7 { Port::new(std::num::NonZeroU16::MIN) } else { request.port },\n        };\n\n        // Create the response before inserting the peer. This means that we\n        // don't have to filter it out from the response peers, and that the\n        // reported number of seeders/leechers will not include it\n        let (response, opt_removed_peer)")]),
+ dict(id="C01-to-large-drops-last", props=["C01"], expect={"C01": r"switch#udp#(to_large|lossless)"},
+      edits=[(SWR, "        let peers = self.0.iter().copied().collect();\n\n        LargePeerMap { peers, num_seeders }\n    }\n}\n\n#[derive(Default)]\npub struct LargePeerMap<I: Ip> {\n    peers: IndexMap<ResponsePeer<I>, Peer>,",
+              "        let peers = self.0.iter().skip(1).copied().collect();\n\n        LargePeerMap { peers, num_seeders }\n    }\n}\n\n#[derive(Default)]\npub struct LargePeerMap<I: Ip> {\n    peers: IndexMap<ResponsePeer<I>, Peer>,")]),
+ dict(id="C07-http-insert-on-stopped", props=["C07"], expect={"C07": r"announce#http#insert_by_status"},
+      edits=[(HST, """            PeerStatus::Stopped =>
+            {""", """            PeerStatus::Stopped if request.numwant == Some(1) =>
+            {
+                match self {
+                    Self::Small(peer_map) => if !peer_map.is_full() { peer_map.insert(peer_map_key, Peer { is_seeder: false, valid_until }) },
+                    Self::Large(peer_map) => peer_map.insert(peer_map_key, Peer { is_seeder: false, valid_until }),
+                }
+            }
+            PeerStatus::Stopped =>
+            {""")]),
+ dict(id="C07-http-scrape-take-dropped", props=["C07"], expect={"C07": r"scrape#http#truncation"},
+      edits=[(HST, "        for info_hash in request.info_hashes.into_iter().take(num_to_take) {", "        let _ = num_to_take;\n        for info_hash in request.info_hashes.into_iter() {")]),
+ dict(id="C07-http-clean-keeps-empty-torrents", props=["C07"], expect={"C07": r"clean#http#keep_iff_peers"},
+      edits=[(HST, "            total_num_peers += num_peers as u64;\n\n            num_peers > 0\n        });\n\n        self.torrents.shrink_to_fit();\n\n        #[cfg(feature = \"metrics\")]\n        self.peer_gauge.set(total_num_peers as f64);\n    }",
+              "            total_num_peers += num_peers as u64;\n\n            true\n        });\n\n        self.torrents.shrink_to_fit();\n\n        #[cfg(feature = \"metrics\")]\n        self.peer_gauge.set(total_num_peers as f64);\n    }")]),
+ dict(id="C07-http-large-insert-always-counts", props=["C07"], expect={"C07": r"counter#http#insert"},
+      edits=[(HST, "    fn insert(&mut self, key: ResponsePeer<I>, peer: Peer) {\n        if peer.is_seeder {\n            self.num_seeders += 1;\n        }\n", "    fn insert(&mut self, key: ResponsePeer<I>, peer: Peer) {\n        self.num_seeders += peer.is_seeder as usize + (self.peers.len() == usize::MAX) as usize;\n")]),
+ dict(id="C07-http-status-left-one", props=["C07"], expect={"C07": r"status#http#table"},
+      edits=[(HST, "        } else if bytes_left == 0 {", "        } else if bytes_left <= 1 {")]),
+]
